@@ -53,7 +53,7 @@ RULE_VEC = ("vectors are TLC-generated behaviours of spec/Gen.tla (every visited
 def c06(res):
     t = res.tier
     mc_head(res, "language-req", invs=["InvLanguage"], kinds='{"req"}', L=fam(t, "2", "3"), alpha=ALPHA17 if t == "quick" else ALPHA11)
-    for f in fam(t, ["byte_q", "ext_q", "lane_q", "len_q", "methods", "versions", "deep_q", "lane8_q"], ["byte_t", "ext_t", "ext17_t", "lane_t", "len_t", "methods", "versions", "deep_t", "lane8_t"]):
+    for f in fam(t, ["byte_q", "ext_q", "lane_q", "len_q", "methods", "versions", "prefaces", "deep_q", "lane8_q"], ["byte_t", "ext_t", "ext17_t", "lane_t", "len_t", "methods", "versions", "prefaces", "deep_t", "lane8_t"]):
         replay_step(res, f, kinds=K_REQ, modes="base")
     if t == "thorough":
         for b in (2, 3):
@@ -89,7 +89,7 @@ def c08(res):
     t = res.tier
     mc_head(res, "language-hdrs-default", invs=["InvLanguage"], kinds='{"req", "resp", "hdrs"}', phases=HDR_PHASES,
             cfgs="{0, 1, 2}", L=fam(t, "2", "4"), caps=fam(t, "{1, 100000}", "{0, 1, 2, 100000}"))
-    for f in fam(t, ["byte_q", "ext_q", "lane_q", "len_q", "lines_q", "deep_q", "lane8_q"], ["byte_t", "ext_t", "lane_t", "len_t", "lines_t", "hdrext_t", "deep_t", "lane8_t"]):
+    for f in fam(t, ["byte_q", "ext_q", "lane_q", "len_q", "lines_q", "deep_q", "lane8_q", "dict_q"], ["byte_t", "ext_t", "lane_t", "len_t", "lines_t", "hdrext_t", "deep_t", "lane8_t", "dict_q"]):
         replay_step(res, f, kinds=HEADS, modes="base")
     if t == "thorough":
         for b in (2, 3):
@@ -122,7 +122,7 @@ def c09(res):
 def c10(res):
     t = res.tier
     mc_head(res, "errkind", invs=["InvLanguage"], L=fam(t, "1", "2"), caps="{0, 1, 2, 100000}")
-    for f in fam(t, ["byte_q", "ext_q", "lines_q", "methods", "versions", "walk_q", "deep_q"], ["byte_t", "ext_t", "lines_t", "hdrext_t", "methods", "versions", "walk_t", "deep_t"]):
+    for f in fam(t, ["byte_q", "ext_q", "lines_q", "methods", "versions", "prefaces", "walk_q", "deep_q", "dict_q"], ["byte_t", "ext_t", "lines_t", "hdrext_t", "methods", "versions", "prefaces", "walk_t", "deep_t", "dict_q"]):
         replay_step(res, f, kinds=HEADS, modes="base")
     feed_traces(res, fam(t, 250000, 3000000), kinds="0,1,2")
     call_traces(res)
@@ -132,7 +132,7 @@ def c11(res):
     t = res.tier
     mc_head(res, "honest-partial", invs=["InvHonest", "InvDeferredClosed"], L=fam(t, "1", "2"), caps="{0, 1, 2, 100000}")
     parser_refinement(res, fam(t, "3", "4"), which=fam(t, ("status-line", "chunk-size"), None))
-    for f in fam(t, ["byte_q", "ext_q", "chunk_q", "methods", "versions", "walk_q", "deep_q"], ["byte_t", "ext_t", "chunk_t", "lane_t", "methods", "versions", "walk_t", "deep_t"]):
+    for f in fam(t, ["byte_q", "ext_q", "chunk_q", "methods", "versions", "prefaces", "walk_q", "deep_q"], ["byte_t", "ext_t", "chunk_t", "lane_t", "methods", "versions", "prefaces", "walk_t", "deep_t"]):
         replay_step(res, f, modes="completion")
     feed_traces(res, fam(t, 250000, 3000000), kinds="0,1,2,3")
 
@@ -142,7 +142,7 @@ def c02(res):
     mc_head(res, "streaming", invs=["InvPast", "InvConsumed"], props=["PropAbsorbing", "PropFieldsMonotone", "PropHeadersAppendOnly"],
             L=fam(t, "1", "2"), caps="{0, 1, 2, 100000}")
     parser_refinement(res, fam(t, "3", "4"), which=fam(t, ("req-line", "header-block"), None))
-    for f in fam(t, ["byte_q", "ext_q", "chunk_q", "methods", "versions", "reasons", "walk_q"], ["byte_t", "ext_t", "chunk_t", "lines_t", "methods", "versions", "reasons", "walk_t"]):
+    for f in fam(t, ["byte_q", "ext_q", "chunk_q", "digits", "methods", "versions", "prefaces", "reasons", "walk_q"], ["byte_t", "ext_t", "chunk_t", "digits", "lines_t", "methods", "versions", "prefaces", "reasons", "walk_t"]):
         replay_step(res, f, modes="extend")
     feed_traces(res, fam(t, 250000, 3000000), kinds="0,1,2,3")
     replay_step(res, "lanetail_q", modes="straddleall")
@@ -152,7 +152,7 @@ def c02(res):
 def c03(res):
     t = res.tier
     mc_head(res, "framing", invs=["InvFraming"], L=fam(t, "2", "3"), caps=fam(t, "{1, 100000}", "{0, 1, 2, 100000}"))
-    for f in fam(t, ["byte_q", "ext_q", "lane_q", "lines_q", "chunk_q", "methods", "versions", "walk_q", "lane8_q"], ["byte_t", "ext_t", "lane_t", "lines_t", "chunk_t", "hdrext_t", "methods", "versions", "walk_t", "lane8_t"]):
+    for f in fam(t, ["byte_q", "ext_q", "lane_q", "lines_q", "chunk_q", "methods", "versions", "prefaces", "walk_q", "lane8_q", "dict_q"], ["byte_t", "ext_t", "lane_t", "lines_t", "chunk_t", "hdrext_t", "methods", "versions", "prefaces", "walk_t", "lane8_t", "dict_q"]):
         replay_step(res, f, modes="base")
     feed_traces(res, fam(t, 250000, 3000000), kinds="0,1,2,3")
     replay_step(res, "lanetail_q", modes="straddleall")
@@ -163,7 +163,7 @@ def c03(res):
 def c04(res):
     t = res.tier
     mc_head(res, "spans", invs=["InvSpans", "InvPast"], L=fam(t, "2", "3"))
-    for f in fam(t, ["byte_q", "ext_q", "lane_q", "len_q", "methods", "versions", "code_q", "lane8_q"], ["byte_t", "ext_t", "lane_t", "len_t", "lines_t", "methods", "versions", "code_q", "lane8_t"]):
+    for f in fam(t, ["byte_q", "ext_q", "lane_q", "len_q", "methods", "versions", "prefaces", "code_q", "lane8_q", "dict_q"], ["byte_t", "ext_t", "lane_t", "len_t", "lines_t", "methods", "versions", "prefaces", "code_q", "lane8_t", "dict_q"]):
         replay_step(res, f, kinds=HEADS, modes="entries" if f.startswith("ext") or f in ("methods", "versions") else "base")
     feed_traces(res, fam(t, 250000, 3000000), kinds="0,1,2")
     client_programs(res, fam(t, 600, 6000))
@@ -175,7 +175,7 @@ def c04(res):
 def c05(res):
     t = res.tier
     mc_head(res, "hygiene", invs=["InvHygiene"], L=fam(t, "2", "3"))
-    for f in fam(t, ["byte_q", "lane_q", "ext_q", "methods", "versions", "reasons", "walk_q", "deep_q", "lane8_q"], ["byte_t", "lane_t", "ext_t", "ext17_t", "hdrext_t", "methods", "versions", "reasons", "walk_t", "deep_t", "lane8_t"]):
+    for f in fam(t, ["byte_q", "lane_q", "ext_q", "methods", "versions", "prefaces", "reasons", "walk_q", "deep_q", "lane8_q", "dict_q"], ["byte_t", "lane_t", "ext_t", "ext17_t", "hdrext_t", "methods", "versions", "prefaces", "reasons", "walk_t", "deep_t", "lane8_t", "dict_q"]):
         replay_step(res, f, kinds=HEADS, modes="base")
     feed_traces(res, fam(t, 250000, 3000000), kinds="0,1,2")
     replay_step(res, "lanetail_q", kinds=HEADS, modes="straddleall")
@@ -187,7 +187,7 @@ def c14(res):
     t = res.tier
     mc_head(res, "language-hdrs-options", invs=["InvLanguage", "InvHygiene"], kinds='{"req", "resp"}', phases=HDR_PHASES,
             L=fam(t, "2", "3"), caps=fam(t, "{100000}", "{1, 100000}"))
-    for f in fam(t, ["byte_q", "ext_q", "lane_q", "lines_q", "deep_q", "lane8_q"], ["byte_t", "ext_t", "lane_t", "lines_t", "hdrext_t", "deep_t", "lane8_t"]):
+    for f in fam(t, ["byte_q", "ext_q", "lane_q", "lines_q", "deep_q", "lane8_q", "dict_q"], ["byte_t", "ext_t", "lane_t", "lines_t", "hdrext_t", "deep_t", "lane8_t", "dict_q"]):
         replay_step(res, f, kinds="0,1", modes="base")
     feed_traces(res, fam(t, 250000, 3000000), kinds="0,1")
     if t == "thorough":
@@ -208,7 +208,7 @@ def c15(res):
     t = res.tier
     mc_head(res, "language-allcfgs", invs=["InvLanguage"], kinds='{"req", "resp"}', L="1")
     multi(res, ["Conservative"], fam(t, "4", "6"))
-    for f in fam(t, ["ext_q", "lines_q", "methods", "versions", "code_q", "reasons"], ["byte_q", "ext_t", "lines_t", "methods", "versions", "code_q", "reasons"]):
+    for f in fam(t, ["ext_q", "lines_q", "methods", "versions", "prefaces", "code_q", "reasons", "dict_q"], ["byte_q", "ext_t", "lines_t", "methods", "versions", "prefaces", "code_q", "reasons", "dict_q"]):
         replay_step(res, f, kinds="0,1", modes="cfgs")
 
 
@@ -216,8 +216,9 @@ def c16(res):
     t = res.tier
     mc_head(res, "language-kinds", invs=["InvLanguage"], L="1")
     multi(res, ["EntryKindsAgree"], fam(t, "4", "6"), kinds=("req",))
-    for f in fam(t, ["byte_q", "ext_q", "lines_q", "methods", "versions"], ["byte_t", "ext_t", "lines_t", "lane_t", "methods", "versions"]):
+    for f in fam(t, ["byte_q", "ext_q", "lines_q", "methods", "versions", "prefaces", "dict_q"], ["byte_t", "ext_t", "lines_t", "lane_t", "methods", "versions", "prefaces", "dict_q"]):
         replay_step(res, f, kinds=HEADS, modes="entries,embed")
+    call_traces(res)
 
 
 def c17(res):
@@ -225,7 +226,7 @@ def c17(res):
     mc_head(res, "capacity", invs=["InvLanguage"], kinds='{"req", "resp", "hdrs"}', phases=HDR_PHASES, L=fam(t, "1", "2"),
             caps="{0, 1, 2}")
     multi(res, ["CapacityLaw", "WithinCapacity"], fam(t, "4", "6"))
-    for f in fam(t, ["lines_q", "byte_q"], ["lines_t", "byte_t", "ext_t"]):
+    for f in fam(t, ["lines_q", "byte_q", "dict_q"], ["lines_t", "byte_t", "ext_t", "dict_q"]):
         replay_step(res, f, kinds=HEADS, modes="entries,caplaw")
     feed_traces(res, fam(t, 250000, 3000000), kinds="0,1,2")
     session_traces(res, fam(t, 6000, 100000))
@@ -250,18 +251,48 @@ def c19(res):
     t = res.tier
     mc_head(res, "outcome-coverage", invs=["InvConsumed"], L="1", caps="{0, 1, 2, 100000}")
     nostd_link(res)
-    for f in fam(t, ["byte_q", "lines_q", "chunk_q", "methods", "versions", "ext_q"], ["byte_t", "ext_t", "lines_t", "lane_t", "chunk_t", "methods", "versions"]):
+    for f in fam(t, ["byte_q", "lines_q", "chunk_q", "methods", "versions", "prefaces", "ext_q", "dict_q"], ["byte_t", "ext_t", "lines_t", "lane_t", "chunk_t", "methods", "versions", "prefaces", "dict_q"]):
         replay_step(res, f, modes="entries")
     if res.extra["no_std_link"]["linked"]:
         replay_step(res, "lines_q", modes="entries", variant=VARIANTS["nostd"])
     replay_step(res, "len_q", modes="entries", backend=3)
+    ambient_step(res)
     call_traces(res)
+
+
+def ambient_names():
+    """names of environment variables the library source mentions (std::env::var, var_os, getenv, env!, option_env!)"""
+    import re
+    names = set()
+    srcs = [os.path.join(dp, f) for dp, _, fs in os.walk(os.path.join(REPO, "src")) for f in fs if f.endswith(".rs")]
+    for path in srcs:
+        txt = open(path, errors="replace").read()
+        # hook module and test modules excluded: they are not part of the library a user links
+        if path.endswith("verif.rs"):
+            continue
+        txt = txt.split("#[cfg(test)]")[0]
+        for m in re.finditer(r'(?:var|var_os|getenv|vars|remove_var|set_var)\s*\(\s*b?"([^"]+)"', txt):
+            names.add(m.group(1))
+    return sorted(names)
+
+
+def ambient_step(res, family="versions", modes="entries"):
+    """the process environment is an input nobody passes explicitly: every variable the source
+    names is set (to several values) in a cold process, and the replay must not notice"""
+    names = ambient_names()
+    res.extra["ambient_env_names"] = names
+    if not names:
+        # nothing in the source reads the environment; one run with a noisy environment all the same
+        replay_step(res, family, modes=modes, run_env={"HTTPARSE": "1", "RUST_BACKTRACE": "1", "LANG": "C"}, label="%s/%s/noisy-env" % (family, modes), threads=2)
+        return
+    for val in ("1", "0", "", "swar", "sse4.2", "avx2", "off"):
+        replay_step(res, family, modes=modes, run_env={n: val for n in names}, label="%s/%s/env=%r" % (family, modes, val), threads=2)
 
 
 def c01(res):
     t = res.tier
     mc_head(res, "total", invs=["InvTotal", "InvConsumed"], L="1", caps="{0, 1, 2, 100000}")
-    for f in fam(t, ["byte_q", "ext_q", "lane_q", "len_q", "lines_q", "methods", "versions", "walk_q", "deep_q", "lane8_q"], ["byte_t", "ext_t", "lane_t", "len_t", "lines_t", "chunk_t", "methods", "versions", "walk_t", "deep_t", "lane8_t"]):
+    for f in fam(t, ["byte_q", "ext_q", "lane_q", "len_q", "lines_q", "methods", "versions", "prefaces", "walk_q", "deep_q", "lane8_q", "dict_q"], ["byte_t", "ext_t", "lane_t", "len_t", "lines_t", "chunk_t", "methods", "versions", "prefaces", "walk_t", "deep_t", "lane8_t", "dict_q"]):
         replay_step(res, f, modes="places,entries")
         replay_step(res, f, modes="places", profile="dbgchk")
     for b in (2, 3):
@@ -798,6 +829,7 @@ CALL_PARTS = {
     "C09": ('{"st", "n", "digits"}', "{3}"),
     "C10": ('{"err"}', "{0, 1, 2}"),
     "C14": ('{"st", "headers"}', "{0, 1}"),
+    "C16": ('{"entries", "st", "count"}', "{0, 1}"),
     "C17": ('{"st", "count", "err", "slots"}', "{0, 1, 2}"),
     "C19": ('{"allocs"}', "{0, 1, 2, 3}"),
 }
